@@ -55,7 +55,7 @@ def main():
     DIR = a.dir
     names = sorted(n for n in os.listdir(os.path.join(VERIF, DIR)) if os.path.exists(os.path.join(VERIF, DIR, n, 'patch.diff')))
     if a.k:
-        names = [n for n in names if a.k in n]
+        names = [n for n in names if re.search(a.k, n)]
     cl = claimed()
     jobs = []
     for n in names:
